@@ -220,6 +220,16 @@ def _d2_by_algebra(eng, ctx, mb, T, sat_field, sig_field, cell_field, consumer_f
     if len(ncell.gens) != 2:
         return None
     gA, gB = ncell.gens
+    # which mask does each factor of the cell map test?  (outer factor: satellites, inner: signals, the joint condition: cells)
+    if len(ncell.conds) == 3 and all(bit_of(c) for c in ncell.conds):
+        onlyA = [c for c in ncell.conds if mentions(c, lambda s_: s_ == gA[0]) and not mentions(c, lambda s_: s_ == gB[0]) and not mentions(c, lambda s_: s_[0] == "pc")]
+        onlyB = [c for c in ncell.conds if mentions(c, lambda s_: s_ == gB[0]) and not mentions(c, lambda s_: s_ == gA[0]) and not mentions(c, lambda s_: s_[0] == "pc")]
+        joint = [c for c in ncell.conds if c not in onlyA and c not in onlyB]
+        if len(onlyA) == 1 and len(onlyB) == 1 and len(joint) == 1:
+            got_f = (bit_of(onlyA[0])[0], bit_of(onlyB[0])[0], bit_of(joint[0])[0])
+            if got_f != (sat_field, sig_field, cell_field) and set(got_f) <= {sat_field, sig_field, cell_field} and got_f != (sig_field, sat_field, cell_field):
+                ctx.bad("C09.D2", mb.qualname, "masks tested by the cell map", expected=f"satellites by {sat_field}, signals by {sig_field}, cells by {cell_field}", found=f"outer factor tests {got_f[0]}, inner factor {got_f[1]}, cell condition {got_f[2]}", **loc)
+                return out
     cA = [c for c in ncell.conds if bit_of(c) and bit_of(c)[0] == sat_field]
     cB = [c for c in ncell.conds if bit_of(c) and bit_of(c)[0] == sig_field]
     cC = [c for c in ncell.conds if bit_of(c) and bit_of(c)[0] == cell_field]
